@@ -751,11 +751,15 @@ def aten_argmax(
 def _aten_argmax(self: Union[RealType, UINT8], keepdim: bool = False) -> INT64:
     """argmax(Tensor self, int? dim=None, bool keepdim=False) -> Tensor"""
 
-    self_is_scaler = len(self.shape) == 0
+    self_rank = len(self.shape)
+    self_is_scaler = self_rank == 0
     self = op.Reshape(self, op.Constant(value_ints=[-1]))
     result = op.ArgMax(self, keepdims=keepdim)
     if self_is_scaler:
         result = op.Squeeze(result)
+    elif keepdim:
+        # PyTorch keeps every reduced dimension: [1] * rank, not [1]
+        result = op.Reshape(result, op.Constant(value_ints=[1] * self_rank))
 
     return result
 
@@ -790,11 +794,15 @@ def aten_argmin(
 def _aten_argmin(self: Union[RealType, UINT8], keepdim: bool = False) -> INT64:
     """argmin(Tensor self, int? dim=None, bool keepdim=False) -> Tensor"""
 
-    self_is_scaler = len(self.shape) == 0
+    self_rank = len(self.shape)
+    self_is_scaler = self_rank == 0
     self = op.Reshape(self, op.Constant(value_ints=[-1]))
     result = op.ArgMin(self, keepdims=keepdim)
     if self_is_scaler:
         result = op.Squeeze(result)
+    elif keepdim:
+        # PyTorch keeps every reduced dimension: [1] * rank, not [1]
+        result = op.Reshape(result, op.Constant(value_ints=[1] * self_rank))
 
     return result
 
